@@ -167,20 +167,34 @@ func (o *oracle) validSigners(sig hotstuff.QuorumSignature, msgOf func(hotstuff.
 		if err != nil {
 			return out
 		}
-		eng := bls12.NewEngine()
+		// e(g1, sig) == prod_i e(pk_i, H(m_i)). Every pairing is computed by its own engine and the
+		// product is taken in the target group: the multi-pair Miller loop of this version of
+		// kilic/bls12-381 is sensitive to the order in which pairs are added for some inputs.
+		gt := bls12.NewGT()
+		var lhs *bls12.E
 		for _, id := range ids {
 			m := msgOf(id)
 			if m == nil {
 				return out
 			}
+			eng := bls12.NewEngine()
 			hp, err := eng.G2.HashToCurve(m, blsDomain)
 			if err != nil {
 				return out
 			}
-			eng.AddPair(o.blsPub[id], hp)
+			pk := *o.blsPub[id] // AddPair normalises its arguments in place
+			r := eng.AddPair(&pk, hp).Result()
+			if lhs == nil {
+				lhs = r
+			} else {
+				prod := gt.New()
+				gt.Mul(prod, lhs, r)
+				lhs = prod
+			}
 		}
-		eng.AddPairInv(&bls12.G1One, pt)
-		if eng.Result().IsOne() {
+		one := bls12.G1One
+		rhs := bls12.NewEngine().AddPair(&one, pt).Result()
+		if lhs != nil && lhs.Equal(rhs) {
 			for _, id := range ids {
 				out[id] = true
 			}
